@@ -46,7 +46,7 @@ CRASH_PROPS = {  # property a confirmed crash/hang is attributed to, by engine a
     "K": lambda ph: (["C04", "C05"] if ph.startswith(("kernel:assemble", "kernel:compute"))
                      else ["C05"] if ph.startswith("kernel:") else []),
     "S": lambda ph: ["C13", "C02"],
-    "T": lambda ph: ["C14"],
+    "T": lambda ph: [] if ph == "warmup" else ["C14"],
     "P": lambda ph: ["C15"],
 }
 
@@ -225,7 +225,7 @@ def run_batch(prop, engine, tier, batch_seed, budget_s, max_runs=None, env=None,
     agg = {"engine": engine, "runs": 0, "ok": 0, "skipped": {}, "violations": [],
            "harness_errors": [], "stats": {}, "probes": {}, "digests": {}, "shapes": {},
            "samples": [], "crash_candidates": [], "wall": 0.0, "steps": 0, "first_plans": [],
-           "worker_restarts": 0, "inconclusive": 0, "extra": {}}
+           "worker_restarts": 0, "inconclusive": 0, "extra": {}, "boot_crashes": []}
     eng = engine_module(engine)
     watchdog = getattr(eng, "WATCHDOG_S", 60)
 
@@ -310,6 +310,12 @@ def run_batch(prop, engine, tier, batch_seed, budget_s, max_runs=None, env=None,
                 if wk.last_begin is not None:
                     agg["crash_candidates"].append((wk.last_begin, wk.last_phase, f"exit {obj['rc']}"))
                     nxt = wk.last_begin[0] + 1
+                elif obj["rc"] is not None and obj["rc"] < 0 and wk.last_phase == "warmup":
+                    # killed by a signal while warming up (plain sequential evaluations): decided
+                    # after the batch by confirm_boot_crash
+                    agg["boot_crashes"].append({"w": w, "how": f"exit {obj['rc']}",
+                                                "tb": "".join(wk.stderr_tail[-15:])})
+                    continue
                 else:
                     agg["harness_errors"].append({"i": None, "seed": None,
                                                   "error": f"worker {w} exited rc={obj['rc']} outside a run",
@@ -326,6 +332,49 @@ def run_batch(prop, engine, tier, batch_seed, budget_s, max_runs=None, env=None,
                 alive.add(w)
     agg["elapsed"] = time.time() - t0
     return agg
+
+
+def confirm_boot_crash(engine, prop, agg, env=None):
+    """Every worker of the batch was killed by a signal during warm-up: start one more, alone.  If it
+    dies the same way, the library crashes the process in ordinary sequential use - a violation of
+    the properties the engine's crashes are attributed to; otherwise a harness error."""
+    bc = agg.get("boot_crashes") or []
+    if not bc:
+        return []
+    eng = engine_module(engine)
+    props = CRASH_PROPS[engine]("warmup")
+    confirmed = False
+    how = bc[0]["how"]
+    if agg["runs"] == 0 and props:
+        q = queue.Queue()
+        cfg = {"mode": "batch", "engine": engine, "prop": prop, "batch_seed": 0, "w": 0, "nw": 1,
+               "deadline": 0, "hashseed": 0, "watchdog_s": getattr(eng, "WATCHDOG_S", 60), "env": env}
+        wk = Worker(cfg, q, 0)
+        t_end = time.time() + 300
+        ready = False
+        while True:
+            try:
+                _, obj = q.get(timeout=max(1, t_end - time.time()))
+            except queue.Empty:
+                wk.kill()
+                break
+            if obj["ev"] == "ready":
+                ready = True
+            elif obj["ev"] == "exit":
+                confirmed = (not ready) and obj["rc"] is not None and obj["rc"] < 0
+                how = f"exit {obj['rc']}"
+                break
+    if confirmed:
+        return [{"i": -1, "seed": 0,
+                 "plan": {"engine": engine, "run_seed": 0, "hashseed": 0, "warmup_only": True},
+                 "violations": [dict(crash_violation(engine, "warmup", how),
+                                     detail=[how, "process killed by a signal during warm-up "
+                                             "(sequential evaluations + gc)", bc[0]["tb"][-600:]])]}]
+    for b in bc:
+        agg["harness_errors"].append({"i": None, "seed": None,
+                                      "error": f"worker {b['w']} {b['how']} during warm-up (not reproducible alone)",
+                                      "tb": b["tb"]})
+    return []
 
 
 def confirm_crashes(engine, prop, batch_seed, agg, env=None):
